@@ -1084,7 +1084,7 @@ let dispatch line =
   | "JO" :: args -> jo_line args
   | "EO" :: args -> eo_line args
   | "UO" :: args -> uo_line args
-  | "F" :: _ | "RV" :: _ | "EK" :: _ -> "SKIP not-modelled-line"
+  | "F" :: _ | "RV" :: _ | "EK" :: _ | "XB" :: _ -> "SKIP not-modelled-line"
   | "Y" :: args -> y_line args
   | "I" :: args -> i_line args
   | "R" :: args -> r_line args
